@@ -53,20 +53,3 @@ Definition k_cyc (g : netlist) : list Z :=
 
 (* design-level oracle: 1 iff some signal bit of the design depends on itself *)
 Definition k_gt (sts : list cstmt) : list Z := [b2l (design_cyclicb sts)].
-
-(* ---- the TRANSLATED Netlist.check_comb_cycles (Gen/NirGen.v, regenerated from _nir.py) run on the same netlist, given
-   as Python cells; [9; 0] = an exception other than CombinationalCycle *)
-From V.Gen Require NirGen.
-From Coq Require Ascii String.
-Definition zstr (cs : list Z) : String.string :=
-  fold_right (fun c s => String.String (Ascii.ascii_of_nat (Z.to_nat c)) s) String.EmptyString cs.
-Definition gen_code (r : NirGen.result unit) : list Z :=
-  match r with
-  | NirGen.Ok _ => [0; 0]
-  | NirGen.RaiseCycle p => [1; zn (length p)]
-  | NirGen.Error => [9; 0]
-  | NirGen.Fuel => [3; 0]
-  end.
-Definition k_cycgen (g : netlist) (pycells : list NirGen.pycell) : list Z :=
-  gen_code (NirGen.check_comb_cycles pycells (map (fun p => (NL (fst p), snd p)) (conn g))
-                                     (map (fun v => (0, v)) (sigs g)) (S (length (all_nets g)))).
